@@ -651,12 +651,8 @@ func (se *SessionExecutor) handleKeepSessionPing() (err error) {
 	}
 
 	if err != nil {
-		for _, ksConn := range se.ksConns {
-			if se.isInTransaction() {
-				ksConn.Close()
-			}
-			ksConn.Recycle()
-		}
+		// the session is closed after ErrBadConn: release the pinned connections exactly once
+		se.handleKsQuit()
 		return mysql.ErrBadConn
 	}
 
